@@ -273,6 +273,42 @@ theorem label_monotone_partial (T : Table) (hpos : factorsPosB T = true) (frm ds
 
 example : (table.filter centesimalB).length = 2 := by decide
 
+/-! ## the report's value formatter (`-divide_by`) -/
+
+/-- `int64(float64(v)·r)`: the divided value is within one sample unit of `v·r`, truncated toward
+zero (stated without dividing: |v·r.num − w·r.den| < r.den). -/
+theorem scaleByRatio_truncates (v : Int) (r : Q) (hd : 0 < r.den) :
+    (v * r.num - scaleByRatio v r * r.den).natAbs < r.den ∧
+    (0 ≤ v * r.num → 0 ≤ scaleByRatio v r ∧ scaleByRatio v r * r.den ≤ v * r.num) ∧
+    (v * r.num ≤ 0 → scaleByRatio v r ≤ 0 ∧ v * r.num ≤ scaleByRatio v r * r.den) :=
+  scaleByRatio_bounds v r hd
+
+/-- **Formatting with a ratio labels the DIVIDED value**: for a ratio r > 0, r ≠ 1 the printed
+number is the rounded scaled value of `w = scaleByRatio v r`, and under automatic unit selection
+the unit is the largest unit of the source's family that keeps the magnitude of `w` — the value
+actually printed, not the undivided `v` — at or above one. -/
+theorem formatValue_labels_divided_value (T : Table) (hpos : factorsPosB T = true) (r : Q)
+    (hr : Q.lt Q.zero r) (hr1 : ¬ Q.eqv r Q.one) (v : Int) (frm dst : Str)
+    (F : Family) (ua : MUnit) (hf : firstFamily T frm = some (F, ua)) (hd : isAuto dst = true) :
+    formatValue T r v frm dst = label T (scaleByRatio v r) frm dst ∧
+    Q.eqv (formatValue T r v frm dst).1 (round2 (scale T (scaleByRatio v r) frm dst).1) ∧
+    (scaleByRatio v r ≠ 0 → ∃ u ∈ F.units,
+      scale T (scaleByRatio v r) frm dst =
+        (((Q.ofInt (scaleByRatio v r)).mul ua.factor).div u.factor, u.name) ∧
+      Qual ((Q.ofInt (scaleByRatio v r)).mul ua.factor) u ∧
+      ∀ w ∈ F.units, Qual ((Q.ofInt (scaleByRatio v r)).mul ua.factor) w → Q.le w.factor u.factor) := by
+  have e : formatValue T r v frm dst = label T (scaleByRatio v r) frm dst := by
+    unfold formatValue
+    have h1 : Q.ltB Q.zero r = true := by simpa [Q.ltB] using hr
+    have h2 : decide (Q.eqv r Q.one) = false := by simpa using hr1
+    simp [h1, h2]
+  refine ⟨e, ?_, ?_⟩
+  · rw [e]; exact (label_number T _ frm dst).1
+  · exact (autoscale_largest_ge_one T hpos _ frm dst F ua hf hd).1
+
+example : scaleByRatio 4194304 ⟨1, 1024⟩ = 4096 ∧ scaleByRatio (-7) ⟨1, 2⟩ = -3 ∧
+    (formatValue table ⟨1, 1024⟩ 4194304 [98] /- "b" -/ sMinimum).2 = [107, 66] /- "kB" -/ := by decide
+
 /-! ## harmonising several profiles -/
 
 /-- **`ScaleProfiles` preserves each profile's physical totals.**  For a table passing the table
